@@ -115,7 +115,11 @@ def real_lines(ctx, rnd):
                           [([('has', 0, ';int b')], 0), ([('has', 0, 'x;y')], 0), ([('has', 0, 'g(); }')], 0), ([('has', 0, 'b;\n')], 0)]):
                 for k in (1, 2):
                     files = [('t.c', text), ('d/u.c', 'keep;\n')][:k]
-                    sc = {'files': files, 'rules': rules, 'passes': [], 'cfg': {'N': rnd.choice([1, 2, 3]), 'no_cache': True},
+                    # what the test exits with on an uninteresting variant: 1, or what a shell reports for a helper that is
+                    # not installed / not executable (127 / 126), or a crash of the test
+                    fall = (1, 127, 126, -11, 2)[(len(text) + int(arg) + k + len(rules)) % 5]
+                    rules_k = list(rules) + ([([], fall)] if fall != 1 else [])
+                    sc = {'files': files, 'rules': rules_k, 'passes': [], 'cfg': {'N': rnd.choice([1, 2, 3]), 'no_cache': True},
                           'sched': [rnd.randint(0, 7) for _ in range(20)], 'real_pass': f'lines::{arg}',
                           'skip_check': rnd.random() < 0.4}      # --skip-interestingness-test-check only skips the START-UP check
                     p = LinesPass(arg, {'topformflat': standin})
@@ -126,7 +130,7 @@ def real_lines(ctx, rnd):
                     if o.diverged:
                         continue
                     if oracle(ctx, sc, o, 'each') and any(rc != 0 for (_c, rc, _w, _l) in o.testlog):
-                        ctx.nontriv(repr(('lines', arg, text, rules, k)))
+                        ctx.nontriv(repr(('lines', arg, text, rules_k, k)))
 
 
 def replay(ctx, payload):
